@@ -4,6 +4,21 @@ import json, os, sys
 HERE = os.path.dirname(os.path.dirname(os.path.abspath(__file__)))
 
 CHECKS = {
+ "C01": dict(
+   technique="property-based testing: structured URL grammar (Hypothesis) + exhaustive token sweep, reference RFC-3986 parser/byte decoder as oracle",
+   text="Generated-input search: every token class in every component, exhaustive single-token (quick) / token-pair (thorough) sweep over six positions, random structures; input and output are both reduced to a semantic normal form by an independent parser and compared component-wise. Exploration, exhaustive only for the sweep bounds.",
+   note="Trusted base: vlib/urlref.py (RFC 3986 regex splitter, cross-checked against urllib.parse.urlsplit on every input; single-pass byte decoder; stdlib punycode codec). Leniencies listed in evidence.assumptions.",
+   design="§4 C01"),
+ "C02": dict(
+   technique="metamorphic property-based testing: spelling transformations equivalent by construction, idempotence and mode round trips, string equality",
+   text="Generated pairs (u, T(u)) with T a composition of spelling transformations from a harness-owned catalogue; idempotence and the four quoted/unquoted round trips on grammar URLs and on an exhaustive token sweep. Exploration.",
+   note="Trusted base: the transformation catalogue vlib/transforms.py (each respelling is guarded to decode to the same bytes).",
+   design="§4 C02"),
+ "C14": dict(
+   technique="bounded-exhaustive enumeration of token sequences + Hypothesis long strings against a reference byte decoder",
+   text="Every string of <=3/4 tokens over a 40-token alphabet and <=2/3 tokens over the full ~110-token alphabet, plus random strings up to 40 tokens; decoded-bytes equality, delimiter/control/space counts, idempotence, structural check of safely_quote and upper_quoted. Exhaustive within bounds.",
+   note="Trusted base: vlib/urlref.dec/lex (single-pass decoder; malformed '%' is a literal '%').",
+   design="§4 C14"),
  "C10": dict(
    technique="model-based testing: exhaustive short assignment histories + Hypothesis op lists against a dict reference model",
    text="Bounded-exhaustive exploration of every assignment history up to the stated length over a small key/value universe, plus random long histories; every public query compared with a dict model after the history (after every step for random ones). Exhaustive within bounds, exploration beyond.",
